@@ -71,13 +71,14 @@ class H:
 
 def parse_out(h, r):
     if "panic" in r:
-        return {"panic": True, "msg": r["panic"]}
+        return {"panic": True, "hang": False, "msg": r["panic"]}
     if "hang" in r:
         return {"panic": False, "hang": True}
     if "unknown_op" in r or "unknown_command" in r:
         raise Inconclusive("verif-native does not know the command of " + h.name)
     o = h.parse(r)
     o.setdefault("panic", False)
+    o.setdefault("hang", False)
     return o
 
 
